@@ -20,3 +20,127 @@ def shared_structure(cat):
 
 def same_token(a, b):
     return conj(type(a).__name__ == type(b).__name__, a.encoding == b.encoding, a.category == b.category)
+
+
+# ---- rendering of tokens (DESIGN 3: View / Render) -------------------------------------------------------------------------
+TOKEN_SEP = '@'
+DECO_SEP = '·'
+D = TokenCategory.DURATION
+P = TokenCategory.PITCH
+A = TokenCategory.ALTERATION
+R = TokenCategory.REST
+DEC = TokenCategory.DECORATION
+PD_CATS = [D, P, A, R]
+PD_CORPUS = ['4', '.', '8', '16', 'q', 'c', 'cc', 'C', 'r', '#', '-', 'n', '2', '3%2']
+DEC_CORPUS = ['L', 'J', '_', '[', ']', '(', ')', ';', "'", '^', '~', 'T', '/', '\\', 'k']
+
+
+def group_rank(cat):
+    """canonical order of the parts of a note (the order the kern grammar reads them in): duration marks, then the pitch
+    letters or the rest sign, then the accidental; inside a group the source order is kept"""
+    return ite(cat == D, 0, ite(cat == A, 2, 1))
+
+
+def render_note(pd, dec, keep, conv):
+    """The extended rendering of one note or rest.  keep: None or a predicate on categories; conv: None or the
+    pitch-to-agnostic converter (str -> str)."""
+    pd_sel = [s for s in pd if keep is None or keep(s.category)]
+    dec_sel = [s for s in dec if keep is None or keep(s.category)]
+    pd_canon = sorted(pd_sel, key=lambda s: group_rank(s.category))
+    dec_canon = sorted(dec_sel, key=lambda s: s.encoding)
+    pitch_part = [s for s in pd_canon if disj(s.category == P, s.category == A)]
+    if conv is not None and pitch_part:
+        dur = [s.encoding for s in pd_canon if s.category == D]
+        agn = conv(''.join(s.encoding for s in pitch_part))
+        if dur:
+            body = TOKEN_SEP.join(dur) + TOKEN_SEP + agn
+        else:
+            body = agn
+    else:
+        body = TOKEN_SEP.join(s.encoding for s in pd_canon)
+    d = DECO_SEP.join(s.encoding for s in dec_canon)
+    if d:
+        text = body + DECO_SEP + d
+    else:
+        text = body
+    return text if len(text) > 0 else '*'
+
+
+def space_join(parts):
+    """texts joined by a single space (no separator before the first)"""
+    out = ''
+    for p in parts:
+        if len(out) > 0:
+            out += ' '
+        out += p
+    return out
+
+
+def strip_separators(text):
+    return text.replace(TOKEN_SEP, '').replace(DECO_SEP, '')
+
+
+def render_compound(subs, keep):
+    parts = [s.encoding for s in subs if keep is None or keep(s.category)]
+    return TOKEN_SEP.join(parts) if len(parts) > 0 else '*'
+
+
+def render_chord(notes, keep, conv):
+    return space_join([render_note(n.pitch_duration_subtokens, n.decoration_subtokens, keep, conv) for n in notes])
+
+
+def export_spec(token, keep, conv):
+    """Token.export by dynamic type (the specification function of the abstract method, DESIGN S-heap)"""
+    kind = type(token).__name__
+    if kind == 'NoteRestToken':
+        return render_note(token.pitch_duration_subtokens, token.decoration_subtokens, keep, conv)
+    if kind == 'ChordToken':
+        return render_chord(token.notes_tokens, keep, conv)
+    if kind == 'CompoundToken':
+        return render_compound(token.subtokens, keep)
+    return token.encoding
+
+
+def is_note_like(token):
+    return type(token).__name__ in ('NoteRestToken', 'ChordToken')
+
+
+def no_decorations(keep):
+    """the category predicate `keep` with DECORATION removed (Basic view)"""
+    return lambda c: conj(c != DEC, True if keep is None else keep(c))
+
+
+def is_simple_token(token):
+    """tokens whose text is their verbatim encoding (separators are never inserted into them)"""
+    return type(token).__name__ not in ('NoteRestToken', 'ChordToken', 'CompoundToken')
+
+
+def plain(token, text, both=True):
+    """the plain view of an extended text: the separators that rendering inserted are removed; the verbatim text of simple
+    tokens contains no inserted separator and is left alone"""
+    if is_simple_token(token):
+        return text
+    if both:
+        return strip_separators(text)
+    return text.replace(TOKEN_SEP, '')
+
+
+def note_keeps_pd(n, keep):
+    return len([s for s in n.pitch_duration_subtokens if keep(s.category)]) > 0
+
+
+def keeps_some_pd(token, keep):
+    """C04's domain: the category selection keeps at least one duration / pitch part of every note (of a chord)"""
+    kind = type(token).__name__
+    if kind == 'NoteRestToken':
+        return note_keeps_pd(token, keep)
+    if kind == 'ChordToken':
+        return len([n for n in token.notes_tokens if not note_keeps_pd(n, keep)]) == 0
+    return True
+
+
+def basic_spec(token, keep):
+    """Basic view: notes (also inside chords) lose their signifiers; every other token is as in the extended encoding"""
+    if is_note_like(token):
+        return export_spec(token, no_decorations(keep), None)
+    return export_spec(token, keep, None)
